@@ -220,3 +220,55 @@ Definition path_check (tbl : loader -> check) (enc dict : bool) (p : access_path
   | [] => None
   | kl :: _ => Some (tbl (snd kl))
   end.
+
+(** * The reader of a column across the row groups of a file
+
+    column.go, Column.Pages / PagesFrom: [columnPages] holds one
+    [FilePages] per row group of the file (each with its own state: its own
+    lazily loaded dictionary) and reads them one after the other; errors of
+    the current [FilePages] are returned as they are.
+    [columnPages.SeekToRow r]: the row groups before the one holding row [r]
+    are not read at all; [SeekToRow] with the remaining row count on that
+    one; [SeekToRow 0] on every later one.  With an offset index
+    [FilePages.SeekToRow 0] on a fresh reader leaves the stream where it is
+    (f.index == target: at the start of the chunk, the dictionary page is met
+    in the stream); without offset index (SkipPageIndex, or a file without
+    page index) it positions the stream at the first data page, so the
+    dictionary of a later row group is loaded lazily. *)
+Inductive rg_position :=
+| RgBefore (* the row group of the page comes before the one the seek went to *)
+| RgAt     (* the seek went to a row of that row group *)
+| RgAfter  (* the seek went to an earlier row group: reached by reading on *).
+
+Inductive column_path :=
+| ColSequential
+| ColSeek (pos : rg_position).
+
+(* the events on the FilePages of the row group that holds the page; None when
+   that row group is not read *)
+Definition column_chunk_events (p : column_path) (noindex : bool) (k : page_kind) (dict : bool)
+  : option (list event) :=
+  match p with
+  | ColSequential => Some (path_events PathSequential k dict)
+  | ColSeek RgBefore => None
+  | ColSeek RgAt => Some (path_events PathSeekThenRead k dict)
+  | ColSeek RgAfter =>
+      Some (EvSeekToRow :: (if noindex then [EvStreamPage k dict] else path_events PathSequential k dict))
+  end.
+
+Definition same_kind (a b : page_kind) : bool :=
+  match a, b with
+  | DictPage, DictPage | DataPageV1, DataPageV1 | DataPageV2, DataPageV2 => true
+  | _, _ => false
+  end.
+
+Definition column_path_check (tbl : loader -> check) (enc dict : bool) (p : column_path)
+           (noindex : bool) (k : page_kind) (target : page_kind) : option check :=
+  match column_chunk_events p noindex k dict with
+  | None => None
+  | Some evs =>
+      match filter (fun kl => same_kind (fst kl) target) (run (init_state enc dict) evs) with
+      | [] => None
+      | kl :: _ => Some (tbl (snd kl))
+      end
+  end.
